@@ -7,7 +7,7 @@ from fvsym.rt import *  # noqa
 BOUNDS = {
     "quick": "pairs of trees over independent skeletons (1-level 0..2 elements; 2-level [], [0], [1], [1,0], [1,1], [2]; one 3-level pair [[2]] x [[1]]) with symbolic coordinates and values: "
              "A == B <=> content(A) = content(B), symmetry, reflexivity, isEmpty, countValues, nonEmpty, deepcopy; transitivity on triples of 1-level <=2-fibers and "
-             "[1]-trees; Tensor == with equal and different rank ids",
+             "[1]-trees; Tensor == with equal and different rank ids; tensors with different authoritative shapes, leaf defaults 7 vs 0, count / emptiness again after an in-place update, one depth-3 pair",
     "thorough": "pairs up to 3 elements / [2,1] x [1,1] / depth-3 [[1]] x [[1],[0]]; triples with 2-level [1,1]",
 }
 OUTSIDE = "depth > 3; non-zero leaf defaults other than the symbolic default family in eq_default; floats"
